@@ -31,7 +31,9 @@ type G struct {
 	S *Snapshot // committed state at block start
 	// busy marks accounts that must not be used as signer in this block
 	Busy map[string]bool
-	n    int
+	// Force: while set, User() returns this account (further messages of a multi-message tx)
+	Force *Account
+	n     int
 }
 
 func (g *G) lbl(s string) string { g.n++; return fmt.Sprintf("%s#%d", s, g.n) }
@@ -73,6 +75,9 @@ func UniformDraw(t *rapid.T, label string, n int) int {
 }
 
 func (g *G) User() *Account {
+	if g.Force != nil {
+		return g.Force
+	}
 	var free []*Account
 	for _, a := range g.W.Accounts {
 		if !g.Busy[a.Addr.String()] {
